@@ -316,6 +316,58 @@ theorem lens_history_repaired :
     run e (St.init 0) [.req (some 1) none (some 5), .req (some 2) none (some 5)]
       = [.inst ⟨some 1, some 9, some 5⟩ 0, .inst ⟨some 2, some 9, some 5⟩ 0] := by decide
 
+/-! ## Grids versus the ids under which the cache sees them
+
+The model identifies a grid with its id (`hash(grid)` in the code).  That identification is an assumption of the
+tie, made explicit here; it is discharged by C10 (equal grids hash equal, the hash is a function of the *current*
+coordinate values, different grids do not collide), not by this file. -/
+
+/-- **Tie assumption `HashFaithful`**: the id is an injective function of the grid (its current coordinates). -/
+def HashFaithful {G : Type} (hash : G → GridId) : Prop := ∀ g1 g2 : G, hash g1 = hash g2 → g1 = g2
+
+example : HashFaithful (fun n : Nat => n + 1) := fun a b h => by simpa using h
+
+/-- The instance key of a forward request names the grid of the request. -/
+theorem forward_key_names_grid {e : Elem} (hg : e.gridDep = true) {ver : Nat} {a : GridId}
+    {w : Option WlKey} {k : Key} (h : fullKey e ver (some a) none w = some k) : k.i = some a := by
+  unfold fullKey reqKey at h
+  simp only [hg, resolve, if_true, Option.isNone_some, Bool.false_and, Bool.false_eq_true, if_false] at h
+  split at h
+  · rename_i a' b' k' h1 h2
+    simp at h1
+    cases h
+    exact h1.1.symm
+  · cases h
+
+/-- **Different grids never share an instance** (under `HashFaithful`): if two forward requests, in any two
+reachable states of a grid-dependent element, are handed instances made for the same key, they were made on the
+same grid. -/
+theorem distinct_grids_distinct_instances {G : Type} (hash : G → GridId) (hf : HashFaithful hash)
+    {e : Elem} (hT : Truthful e) (hmax : 1 ≤ e.maxN) (hg : e.gridDep = true) {s1 s2 : St}
+    (h1 : Inv e s1) (h2 : Inv e s2) (g1 g2 : G) (w : Option WlKey) (k : Key) (v1 v2 : Nat)
+    (r1 : (step e s1 (.req (some (hash g1)) none w)).2 = .inst k v1)
+    (r2 : (step e s2 (.req (some (hash g2)) none w)).2 = .inst k v2) : g1 = g2 := by
+  have key_of : ∀ (s : St), Inv e s → ∀ (g : G) (v : Nat),
+      (step e s (.req (some (hash g)) none w)).2 = .inst k v → k.i = some (hash g) := by
+    intro s hi g v r
+    rw [request_transparent hT hmax hi] at r
+    rcases fresh_spec hT hmax s.ver (some (hash g)) none w with ⟨_, hf'⟩ | ⟨_, k2, _, hk2, hf'⟩
+    · rw [hf'] at r; cases r
+    · rw [hf'] at r
+      cases r
+      exact forward_key_names_grid hg hk2
+  have e1 := key_of s1 h1 g1 v1 r1
+  have e2 := key_of s2 h2 g2 v2 r2
+  rw [e1] at e2
+  exact hf g1 g2 (by simpa using e2)
+
+/-- Without `HashFaithful` the cache cannot tell colliding grids apart: every history is answered identically
+for two grids with the same id (this is what a lossy or stale `Grid.__hash__` does). -/
+theorem colliding_grids_share_instance {G : Type} (hash : G → GridId) (e : Elem) (s : St) (g1 g2 : G)
+    (w : Option WlKey) (h : hash g1 = hash g2) :
+    step e s (.req (some (hash g1)) none w) = step e s (.req (some (hash g2)) none w) := by
+  rw [h]
+
 /-! ## The wavelength key (the property's side condition "wavelengths at least 1e-6 apart")
 
 `wavelength_key = int(np.round(np.log(wavelength) / np.log(1 + 1e-9)))`, modelled over ℝ as
